@@ -128,6 +128,9 @@ func (c *Conn) jsync() syscall.Errno {
 // NewConn creates a connection object; Open must be called before use.
 func (n *Node) NewConn(db string, mode string, pageSize uint32) *Conn {
 	c := &Conn{r: n.r, n: n, k: n.K, DB: db, Owner: n.NewOwner(), Mode: mode, PageSize: pageSize, SectorSize: 512, T: n.r.Tape}
+	if n.r.SectorSize != 0 {
+		c.SectorSize = n.r.SectorSize
+	}
 	c.ID = int(c.Owner % 1000)
 	return c
 }
